@@ -1275,12 +1275,6 @@ impl<T> TCompactInputProtocol<T> {
             pending_read_bool_field_identifier: None,
         }
     }
-
-    fn assert_no_pending_bool_read(&self) {
-        if let Some(ref f) = self.pending_read_bool_field_identifier {
-            panic!("pending bool field {:?} not read", f);
-        }
-    }
 }
 
 impl TCompactInputProtocol<&mut Bytes> {
@@ -1331,7 +1325,7 @@ impl<T> TLengthProtocol for TCompactInputProtocol<T> {
     }
     #[inline]
     fn message_end_len(&mut self) -> usize {
-        self.assert_no_pending_bool_read();
+        self.pending_read_bool_field_identifier = None;
         0
     }
 
@@ -1343,7 +1337,7 @@ impl<T> TLengthProtocol for TCompactInputProtocol<T> {
     }
     #[inline]
     fn struct_end_len(&mut self) -> usize {
-        self.assert_no_pending_bool_read();
+        self.pending_read_bool_field_identifier = None;
         self.last_read_field_id = self
             .read_field_id_stack
             .pop()
@@ -1363,21 +1357,27 @@ impl<T> TLengthProtocol for TCompactInputProtocol<T> {
         // field_begin_len.
         match field_type {
             TType::Bool => {
-                if self.pending_read_bool_field_identifier.is_some() {
-                    panic!(
-                        "should not have a pending bool while reading another bool with id: \
-                        {:?}",
-                        id,
-                    )
-                }
+                // The header of a bool field carries the value, and its length does
+                // not depend on it. It is accounted for right here: while decoding,
+                // the value is taken from the header by `read_bool`/`skip` and
+                // `bool_len` may never be called. The marker tells a following
+                // `bool_len` that this bool occupies no bytes of its own.
+                let mut ax = 0;
+                read_field_header_len!(
+                    self,
+                    ax,
+                    TCompactType::BooleanTrue,
+                    id.expect("expecting a field id")
+                );
                 self.pending_read_bool_field_identifier = Some(TFieldIdentifier {
                     name: None,
                     field_type,
                     id,
                 });
-                0
+                ax
             }
             _ => {
+                self.pending_read_bool_field_identifier = None;
                 let tc_field_type = TCompactType::try_from(field_type).unwrap(); // this should never happen
                 let mut ax = 0;
                 read_field_header_len!(self, ax, tc_field_type, id.expect("expecting a field id"));
@@ -1387,44 +1387,22 @@ impl<T> TLengthProtocol for TCompactInputProtocol<T> {
     }
     #[inline]
     fn field_end_len(&mut self) -> usize {
-        // The header of a bool field carries its value. While decoding, that value
-        // is taken by `read_bool`/`skip` and `bool_len` is never called, so the
-        // header that `field_begin_len` deferred is accounted for here.
-        match self.pending_read_bool_field_identifier.take() {
-            Some(pending) => {
-                let field_id = pending.id.expect("bool field should have a field id");
-                let mut ax = 0;
-                read_field_header_len!(self, ax, TCompactType::BooleanTrue, field_id);
-                ax
-            }
-            None => 0,
-        }
+        self.pending_read_bool_field_identifier = None;
+        0
     }
     #[inline]
     fn field_stop_len(&mut self) -> usize {
-        self.assert_no_pending_bool_read();
+        self.pending_read_bool_field_identifier = None;
         self.byte_len(TType::Stop as u8)
     }
 
     #[inline]
-    fn bool_len(&mut self, b: bool) -> usize {
+    fn bool_len(&mut self, _b: bool) -> usize {
         match self.pending_read_bool_field_identifier.take() {
-            Some(pending) => {
-                let field_id = pending.id.expect("bool field should have a field id");
-                let tc_field_type = if b {
-                    TCompactType::BooleanTrue
-                } else {
-                    TCompactType::BooleanFalse
-                };
-                let mut ax = 0;
-                read_field_header_len!(self, ax, tc_field_type, field_id);
-                ax
-            }
-            None => self.byte_len(if b {
-                TCompactType::BooleanTrue as u8
-            } else {
-                TCompactType::BooleanFalse as u8
-            }),
+            // a field: already counted with its header
+            Some(_) => 0,
+            // an element of a container
+            None => self.byte_len(TCompactType::BooleanTrue as u8),
         }
     }
 
